@@ -770,6 +770,40 @@ theorem nf_lSet (v i x : Nat) : stepRes st (.lSet v i x) ≠ .fault := by
   exact execAll_one_def (assignVal_def _ i (.ext x) (valid_of hg.1 (by simp)) (by simp [Kind.fields]) hg.2
     (srcOK_ext st x) trivial)
 
+omit h ha in
+/-- a list of assignments to nodes inside list c is executable (the list keeps its length) -/
+theorem sortOk_def {c : Var} (hv : c.valid = true) (hf : 1 ∈ c.k.fields) : ∀ (ms : List Micro) (s : State),
+    SortOk c (s.nodes c).items.length ms → ∃ s', execAll s ms = some s'
+  | [], s, _ => ⟨s, rfl⟩
+  | m :: rest, s, hok => by
+    obtain ⟨j, src, rfl, hj, hsrc⟩ := hok m (by simp)
+    have hs : SrcOK s src ∧ NotInplace src := by
+      rcases hsrc with ⟨p, rfl⟩ | ⟨j', rfl, hj'⟩
+      · exact ⟨srcOK_ext s p, trivial⟩
+      · exact ⟨srcOK_item hf hj', trivial⟩
+    obtain ⟨s1, h1⟩ := assignVal_def (s := s) c j src hv hf hj hs.1 hs.2
+    have hn : s1.nodes = s.nodes := by
+      have h1' := Stable.exec_exec' h1
+      simp only [exec'] at h1'
+      rw [if_neg (by simpa using hf)] at h1'
+      cases hj2 : (s.nodes c).items[j]? with
+      | none => simp [hj2] at h1'
+      | some it =>
+        cases hr : resolve s src with
+        | none => simp [hj2, hr] at h1'
+        | some lp =>
+          obtain ⟨l, p⟩ := lp
+          cases l with
+          | none => simp [hj2, hr] at h1'
+          | some l => simp [hj2, hr] at h1'; rw [← h1']; rfl
+    exact execAll_cons_def h1 (sortOk_def hv hf rest s1 (by rw [hn]; exact fun m' hm' => hok m' (by simp [hm'])))
+
+theorem nf_lSort (v : Nat) (orc : List Bool) : stepRes st (.lSort v orc) ≠ .fault := by
+  apply stepRes_ne_fault; intro ms hc
+  simp only [compile] at hc; obtain ⟨hg, rfl⟩ := guard_some hc
+  simp only [Bool.and_eq_true, decide_eq_true_eq] at hg
+  exact sortOk_def (valid_of hg.1 (by simp)) (by simp [Kind.fields]) _ st (sortMicros_getD_ok st v orc)
+
 -- Map / MultiMap
 omit h ha in
 theorem mu_ne_A {c : Var} (hk : c.k = .M ∨ c.k = .U) : c.k ≠ .A := by
@@ -1292,6 +1326,7 @@ theorem no_fault_st (op : Op) : stepRes st op ≠ .fault := by
   | lRemoveVal v x => exact nf_lRemoveVal h ha v x
   | lRemoveValRef v i => exact nf_lRemoveValRef h ha v i
   | lSet v i x => exact nf_lSet h ha v i x
+  | lSort v orc => exact nf_lSort h ha v orc
   | mInsert c k x => exact nf_mInsert h ha c k x
   | mInsertHint c pos k x => exact nf_mInsertHint h ha c pos k x
   | mInsertRef c k i => exact nf_mInsertRef h ha c k i
